@@ -170,6 +170,9 @@ def flatNames (sep : String) (t : Entry) : List String := (leavesOf t).map (fun 
 /-- the flat dict `flatten_keys(sep)` builds -/
 def flatKids (sep : String) (t : Entry) : Kids := (leavesOf t).map (fun kv => (joinWith sep kv.1, kv.2))
 
+/-- what is left after every listed entry has been removed, in order -/
+def removeAll (L : List Path) (t : Entry) : Entry := L.foldl (fun t p => (remove p t).getD t) t
+
 /-! ### unflatten_keys -/
 
 /-- `unflatten_keys(sep)` on a plain dict: every root key containing the separator is moved to its split path
@@ -191,11 +194,11 @@ def specUnflatten (sep : Char) (inplace : Bool) (t : Entry) : Entry × Out :=
 /-! ### the reference step -/
 
 /-- the operations whose transcription is proved to refine the nested-dict replay (see Props/C04.lean);
-the remaining ones (select, flatten_keys in place, split_keys) are tied to the
+the remaining ones (select, split_keys) are tied to the
 code by the correspondence check and judged by the Python dict oracle only. -/
 def Op.core : Op → Bool
   | .set .. | .del .. | .pop .. | .rename .. | .setdefault .. | .clear | .empty | .unflatten .. | .exclude .. | .update .. => true
-  | .flatten _ inplace => !inplace
+  | .flatten .. => true
   | _ => false
 
 /-- replay of one operation on the plain nested dict (core operations) -/
@@ -214,8 +217,9 @@ def dstep (t : Entry) : Op → Entry × Out
     | (t', .ok ()) => (t', .ok)
   | .exclude keys inplace =>
     if inplace then (specExclude keys t, .ok) else (t, .res [specExclude keys t])
-  | .flatten sep false =>
-    if (flatNames sep t).Nodup then (t, .res [.node (flatKids sep t)]) else (t, .err .key)
+  | .flatten sep inplace =>
+    if (flatNames sep t).Nodup then (if inplace then (.node (flatKids sep t), .ok) else (t, .res [.node (flatKids sep t)]))
+    else (t, .err .key)
   | _ => (t, .err .runtime)
 
 def drun (t : Entry) : List Op → Entry
@@ -234,7 +238,7 @@ def InScope (t : Entry) : Op → Prop
   | .unflatten .. => True
   | .update items => ∀ kv ∈ items, WF kv.2
   | .exclude keys _ => ∀ p ∈ keys, p ≠ []
-  | .flatten _ inplace => inplace = false
+  | .flatten .. => True
   | _ => False
 
 def ScopeAll (t : Entry) : List Op → Prop
